@@ -1213,6 +1213,14 @@ func (a *Assembler) closeHalfConnection(conn *connection, half *halfconnection) 
 		a.pc.replace(p)
 		half.pages--
 	}
+	half.first, half.last = nil, nil
+	// Pages kept on request of the stream are not needed any more either
+	for p := half.saved; p != nil; p = next {
+		next = p.next
+		a.pc.replace(p)
+		half.pages--
+	}
+	half.saved = nil
 
 	if conn.s2c.closed && conn.c2s.closed {
 		if half.stream.ReassemblyComplete(nil) { //FIXME: which context to pass ?
